@@ -306,4 +306,240 @@ theorem appends_infoB (i : Info R) : Appends (infoB i) (encInfo i) := by
     exact ((((appends_storeUint 3 2 (by omega)).andThen (appends_storeAddress src)).andThen (appends_storeAddress dest)).andThen
       (appends_storeUint lt 64 (by omega))).andThen (appends_storeUint at_ 32 (by omega))
 
+
+/-! sizes of encodings -/
+
+def Enc.nrefs (e : Enc R) : Nat := match e with | some c => c.2.length | none => 0
+def Enc.nbits (e : Enc R) : Nat := match e with | some c => c.1.length | none => 0
+
+theorem nrefs_cat_le {a b : Enc R} {x y : Nat} (ha : Enc.nrefs a ≤ x) (hb : Enc.nrefs b ≤ y) : Enc.nrefs (a +++ b) ≤ x + y := by
+  rcases a with _ | ⟨a1, a2⟩ <;> rcases b with _ | ⟨b1, b2⟩ <;> simp [Enc.cat, Enc.nrefs] at * <;> omega
+
+theorem nbits_cat_le {a b : Enc R} {x y : Nat} (ha : Enc.nbits a ≤ x) (hb : Enc.nbits b ≤ y) : Enc.nbits (a +++ b) ≤ x + y := by
+  rcases a with _ | ⟨a1, a2⟩ <;> rcases b with _ | ⟨b1, b2⟩ <;> simp [Enc.cat, Enc.nbits] at * <;> omega
+
+theorem nrefs_eBool (x : Bool) : Enc.nrefs (eBool x : Enc R) ≤ 0 := by simp [eBool, Enc.nrefs]
+theorem nrefs_eBits (x : Bits) : Enc.nrefs (eBits x : Enc R) ≤ 0 := by simp [eBits, Enc.nrefs]
+theorem nrefs_eNil : Enc.nrefs (eNil : Enc R) ≤ 0 := by simp [eNil, Enc.nrefs]
+theorem nrefs_eUint (n : Nat) (v : Int) : Enc.nrefs (eUint n v : Enc R) ≤ 0 := by
+  unfold eUint; split <;> simp [Enc.nrefs]
+theorem nrefs_eInt (n : Nat) (v : Int) : Enc.nrefs (eInt n v : Enc R) ≤ 0 := by
+  unfold eInt; split <;> simp [Enc.nrefs]
+theorem nrefs_eGrams (v : Int) : Enc.nrefs (eGrams v : Enc R) ≤ 0 := by
+  unfold eGrams eVarUint; split
+  · exact nrefs_cat_le (x := 0) (y := 0) (nrefs_eUint _ _) (nrefs_eUint _ _)
+  · simp [Enc.nrefs]
+theorem nrefs_eMaybeRef (o : Option R) : Enc.nrefs (eMaybeRef o) ≤ 1 := by
+  cases o <;> simp [eMaybeRef, eBool, eRef, Enc.cat, Enc.nrefs]
+theorem nrefs_eAddr (a : Addr) : Enc.nrefs (eAddr a : Enc R) ≤ 0 := by
+  cases a with
+  | none => exact nrefs_eBits _
+  | ext len val =>
+    unfold eAddr
+    refine nrefs_cat_le (x := 0) (y := 0) (nrefs_eBits _) (nrefs_cat_le (x := 0) (y := 0) (nrefs_eUint _ _) ?_)
+    split
+    · exact nrefs_eNil
+    · exact nrefs_eUint _ _
+  | std anycast wc hash =>
+    unfold eAddr
+    refine nrefs_cat_le (x := 0) (y := 0) (nrefs_eBits _) (nrefs_cat_le (x := 0) (y := 0) ?_ (nrefs_cat_le (x := 0) (y := 0) (nrefs_eInt _ _) ?_))
+    · cases anycast with
+      | none => exact nrefs_eBool _
+      | some dp =>
+        simp only; split
+        · exact nrefs_cat_le (x := 0) (y := 0) (nrefs_eBool _) (nrefs_cat_le (x := 0) (y := 0) (nrefs_eUint _ _) (nrefs_eUint _ _))
+        · simp [Enc.nrefs]
+    · split
+      · exact nrefs_eBits _
+      · simp [Enc.nrefs]
+
+theorem nrefs_encCurrency (c : Currency R) : Enc.nrefs (encCurrency c) ≤ 1 :=
+  nrefs_cat_le (x := 0) (y := 1) (nrefs_eGrams _) (nrefs_eMaybeRef _)
+
+/-- a header has at most one reference (the extra-currency dictionary) -/
+theorem nrefs_encInfo (i : Info R) : Enc.nrefs (encInfo i) ≤ 1 := by
+  cases i with
+  | int a b c src dest value ihr fwd lt at_ =>
+    exact nrefs_cat_le (x := 0) (y := 1) (nrefs_eBool _) <| nrefs_cat_le (x := 0) (y := 1) (nrefs_eBool _) <|
+      nrefs_cat_le (x := 0) (y := 1) (nrefs_eBool _) <| nrefs_cat_le (x := 0) (y := 1) (nrefs_eBool _) <|
+      nrefs_cat_le (x := 0) (y := 1) (nrefs_eAddr _) <| nrefs_cat_le (x := 0) (y := 1) (nrefs_eAddr _) <|
+      nrefs_cat_le (x := 1) (y := 0) (nrefs_encCurrency _) <| nrefs_cat_le (x := 0) (y := 0) (nrefs_eGrams _) <|
+      nrefs_cat_le (x := 0) (y := 0) (nrefs_eGrams _) <| nrefs_cat_le (x := 0) (y := 0) (nrefs_eUint _ _) (nrefs_eUint _ _)
+  | extIn src dest fee =>
+    exact Nat.le_trans (nrefs_cat_le (x := 0) (y := 0) (nrefs_eBits _) <| nrefs_cat_le (x := 0) (y := 0) (nrefs_eAddr _) <|
+      nrefs_cat_le (x := 0) (y := 0) (nrefs_eAddr _) (nrefs_eGrams _)) (by omega)
+  | extOut src dest lt at_ =>
+    exact Nat.le_trans (nrefs_cat_le (x := 0) (y := 0) (nrefs_eBits _) <| nrefs_cat_le (x := 0) (y := 0) (nrefs_eAddr _) <|
+      nrefs_cat_le (x := 0) (y := 0) (nrefs_eAddr _) <| nrefs_cat_le (x := 0) (y := 0) (nrefs_eUint _ _) (nrefs_eUint _ _)) (by omega)
+
+theorem nbits_eBool (x : Bool) : Enc.nbits (eBool x : Enc R) ≤ 1 := by simp [eBool, Enc.nbits]
+theorem nbits_eUint (n : Nat) (v : Int) : Enc.nbits (eUint n v : Enc R) ≤ n := by
+  unfold eUint; split <;> simp [Enc.nbits, natToBits_length]
+theorem nbits_eMaybeRef (o : Option R) : Enc.nbits (eMaybeRef o) ≤ 1 := by
+  cases o <;> simp [eMaybeRef, eBool, eRef, Enc.cat, Enc.nbits]
+
+/-- a state-init has at most 12 bits and 3 references -/
+theorem size_encStateInit (s : StateInit R) : Enc.nbits (encStateInit s) ≤ 12 ∧ Enc.nrefs (encStateInit s) ≤ 3 := by
+  unfold encStateInit
+  constructor
+  · refine Nat.le_trans (nbits_cat_le (x := 6) (y := 6) ?_ (nbits_cat_le (x := 3) (y := 3) ?_
+      (nbits_cat_le (x := 1) (y := 2) (nbits_eMaybeRef _) (nbits_cat_le (x := 1) (y := 1) (nbits_eMaybeRef _) (nbits_eMaybeRef _))))) (by omega)
+    · cases s.splitDepth with
+      | none => exact Nat.le_trans (nbits_eBool _) (by omega)
+      | some d => exact nbits_cat_le (x := 1) (y := 5) (nbits_eBool _) (nbits_eUint _ _)
+    · cases s.special with
+      | none => exact Nat.le_trans (nbits_eBool _) (by omega)
+      | some t => exact nbits_cat_le (x := 1) (y := 2) (nbits_eBool _) (nbits_cat_le (x := 1) (y := 1) (nbits_eBool _) (nbits_eBool _))
+  · refine Nat.le_trans (nrefs_cat_le (x := 0) (y := 3) ?_ (nrefs_cat_le (x := 0) (y := 3) ?_
+      (nrefs_cat_le (x := 1) (y := 2) (nrefs_eMaybeRef _) (nrefs_cat_le (x := 1) (y := 1) (nrefs_eMaybeRef _) (nrefs_eMaybeRef _))))) (by omega)
+    · cases s.splitDepth with
+      | none => exact nrefs_eBool _
+      | some d => exact nrefs_cat_le (x := 0) (y := 0) (nrefs_eBool _) (nrefs_eUint _ _)
+    · cases s.special with
+      | none => exact nrefs_eBool _
+      | some t => exact nrefs_cat_le (x := 0) (y := 0) (nrefs_eBool _) (nrefs_cat_le (x := 0) (y := 0) (nrefs_eBool _) (nrefs_eBool _))
+
+
+/-! ### `MessageAny.serialize`: which encoding it produces and that it always has room -/
+
+theorem enc_some_sizes {e : Enc R} {c : Chunk R} (h : e = some c) : Enc.nbits e = c.1.length ∧ Enc.nrefs e = c.2.length := by
+  subst h; simp [Enc.nbits, Enc.nrefs]
+
+/-- what the body step needs from the builder it starts on -/
+def BodyRoom (body : Chunk R) (b : Builder R) : Prop :=
+  b.bits.length + 1 ≤ 1023 ∧
+  (b.refs.length + 1 ≤ 4 ∨ (body.1.length + b.bits.length + 1 ≤ 1023 ∧ body.2.length + b.refs.length ≤ 4))
+
+theorem bodyB_ok (ops : CellOps R) (ht : ops.Total) (body : Chunk R)
+    (hbody : body.1.length ≤ 1023 ∧ body.2.length ≤ 4) (b : Builder R) (hb : WFB b) (hroom : BodyRoom body b) :
+    ∃ br ch, encBody ops body br = some ch ∧ Fits b ch ∧ bodyB ops body b = some (app b ch, true) := by
+  obtain ⟨h1, h2⟩ := hroom
+  unfold bodyB
+  by_cases hc : (decide ((body.1.length : Int) ≤ (1023 - (b.bits.length : Int)) - 1) && decide (body.2.length + b.refs.length ≤ 4)) = true
+  · simp only [hc, if_true]
+    simp only [Bool.and_eq_true, decide_eq_true_eq] at hc
+    refine ⟨false, (false :: body.1, body.2), ?_, ?_, ?_⟩
+    · simp [encBody, eBool, Enc.cat]
+    · simp only [Fits, List.length_cons]; omega
+    · have ha := ((appends_storeBit false).andThen (appends_storeCell body.1 body.2)) b hb (false :: body.1, body.2)
+        (by simp [eBool, Enc.cat])
+      have hf : Fits b (false :: body.1, body.2) := by simp only [Fits, List.length_cons]; omega
+      rw [ha.1 hf]
+  · simp only [hc, Bool.false_eq_true, if_false]
+    simp only [Bool.and_eq_true, decide_eq_true_eq] at hc
+    have hr : b.refs.length + 1 ≤ 4 := by
+      rcases h2 with h | h
+      · exact h
+      · exfalso; apply hc; omega
+    have hm := ht body.1 body.2 hbody.1 hbody.2
+    obtain ⟨bc, hbc⟩ := Option.isSome_iff_exists.mp hm
+    simp only [hbc]
+    refine ⟨true, ([true], [bc]), ?_, ?_, ?_⟩
+    · simp [encBody, mkChunk, hbody, hbc, eBool, eRef, Enc.cat]
+    · simp only [Fits, List.length_cons, List.length_nil]; omega
+    · have ha := ((appends_storeBit true).andThen (appends_storeRef bc)) b hb ([true], [bc])
+        (by simp [eBool, eRef, Enc.cat])
+      have hf : Fits b ([true], [bc]) := by simp only [Fits, List.length_cons, List.length_nil]; omega
+      rw [ha.1 hf]
+
+theorem initB_ok (ops : CellOps R) (hl : ops.Lawful) (ht : ops.Total) (init : Option (StateInit R))
+    (hinit : ∀ s, init = some s → (encStateInit s).isSome) (body : Chunk R) (b : Builder R) (hb : WFB b)
+    (hbits : b.bits.length + (if init.isSome then 3 else 2) ≤ 1023) (hrefs : b.refs.length ≤ 1) :
+    ∃ ir ch, encInit ops init ir = some ch ∧ Fits b ch ∧ initB ops init body b = some (app b ch, true) ∧
+      BodyRoom body (app b ch) := by
+  cases init with
+  | none =>
+    simp only [Option.isSome_none, Bool.false_eq_true, if_false] at hbits
+    refine ⟨false, ([false], []), by simp [encInit, eBool], ?_, ?_, ?_⟩
+    · simp only [Fits, List.length_cons, List.length_nil]; omega
+    · have ha := (appends_storeBit (R := R) false) b hb ([false], []) (by simp [eBool])
+      have hf : Fits b ([false], []) := by simp only [Fits, List.length_cons, List.length_nil]; omega
+      simp only [initB]; rw [ha.1 hf]
+    · simp only [BodyRoom, app, List.length_append, List.length_cons, List.length_nil]; omega
+  | some s =>
+    simp only [Option.isSome_some, if_true] at hbits
+    obtain ⟨sc, hsc⟩ := Option.isSome_iff_exists.mp (hinit s rfl)
+    have hsz := size_encStateInit s
+    obtain ⟨e1, e2⟩ := enc_some_sizes hsc
+    rw [e1, e2] at hsz
+    -- the init cell
+    have hrun := ((appends_stateInitB s).run hsc).1 (by omega)
+    obtain ⟨ic, hic⟩ := Option.isSome_iff_exists.mp (ht sc.1 sc.2 (by omega) (by omega))
+    have hview := hl _ _ _ hic
+    have hcell : cellOf ops (stateInitB s) = some ic := by
+      simp [cellOf, runB, hrun, hic]
+    -- store_bit(1)
+    have ha := (appends_storeBit (R := R) true) b hb ([true], []) (by simp [eBool])
+    have hf1 : Fits b ([true], []) := by simp only [Fits, List.length_cons, List.length_nil]; omega
+    have hb1 := ha.1 hf1
+    have hwf1 : WFB (app b ([true], [])) := app_wfb hf1
+    simp only [initB, hb1, hcell, hview]
+    simp only [Bool.not_true, Bool.false_eq_true, if_false]
+    have hlen1 : (app b ([true], [])).bits.length = b.bits.length + 1 := by simp [app]
+    have hlen2 : (app b ([true], [])).refs.length = b.refs.length := by simp [app]
+    by_cases hc : (decide ((1023 - ((app b ([true], [])).bits.length : Int)) - 2 - (sc.1.length : Int) ≥ 0) &&
+        (decide (4 - ((app b ([true], [])).refs.length : Int) - (sc.2.length : Int) ≥ 1) ||
+          (decide (4 - ((app b ([true], [])).refs.length : Int) - (sc.2.length : Int) = 0) && body.2.isEmpty &&
+            decide ((body.1.length : Int) ≤ (1023 - ((app b ([true], [])).bits.length : Int)) - 2 - (sc.1.length : Int))))) = true
+    · simp only [hc, if_true]
+      simp only [Bool.and_eq_true, Bool.or_eq_true, decide_eq_true_eq, List.isEmpty_iff, hlen1, hlen2] at hc
+      have hb2e : body.2 = [] → body.2.length = 0 := fun h => by simp [h]
+      refine ⟨false, ([true, false] ++ sc.1, sc.2), ?_, ?_, ?_, ?_⟩
+      · simp [encInit, hsc, eBits, Enc.cat]
+      · simp only [Fits, List.length_append, List.length_cons, List.length_nil]
+        rcases hc with ⟨h1, h2 | ⟨⟨h2, h3⟩, h4⟩⟩ <;> omega
+      · have hx := ((appends_storeBit false).andThen (appends_storeCell sc.1 sc.2)) (app b ([true], [])) hwf1
+          (false :: sc.1, sc.2) (by simp [eBool, Enc.cat])
+        have hf : Fits (app b ([true], [])) (false :: sc.1, sc.2) := by
+          simp only [Fits, hlen1, hlen2, List.length_cons]
+          rcases hc with ⟨h1, h2 | ⟨⟨h2, h3⟩, h4⟩⟩ <;> omega
+        rw [hx.1 hf]; simp [app, List.append_assoc]
+      · simp only [BodyRoom, app, List.length_append, List.length_cons, List.length_nil]
+        rcases hc with ⟨h1, h2 | ⟨⟨h2, h3⟩, h4⟩⟩
+        · omega
+        · have := hb2e h3; omega
+    · simp only [hc, Bool.false_eq_true, if_false]
+      refine ⟨true, ([true, true], [ic]), ?_, ?_, ?_, ?_⟩
+      · have : mkChunk ops sc = some ic := by simp [mkChunk, hic]; omega
+        simp [encInit, hsc, this, eBits, eRef, Enc.cat]
+      · simp only [Fits, List.length_cons, List.length_nil]; omega
+      · have hx := ((appends_storeBit true).andThen (appends_storeRef ic)) (app b ([true], [])) hwf1
+          ([true], [ic]) (by simp [eBool, eRef, Enc.cat])
+        have hf : Fits (app b ([true], [])) ([true], [ic]) := by
+          simp only [Fits, hlen1, hlen2, List.length_cons, List.length_nil]; omega
+        rw [hx.1 hf]; simp [app, List.append_assoc]
+      · simp only [BodyRoom, app, List.length_append, List.length_cons, List.length_nil]; omega
+
+/-- `MessageAny.serialize` produces one of the spec encodings of the message and never lacks room -/
+theorem serialize_cases (ops : CellOps R) (hl : ops.Lawful) (ht : ops.Total) (m : Msg R)
+    {ib : Bits} {ir : List R} (hinfo : encInfo m.info = some (ib, ir))
+    (hI : ib.length + (if m.init.isSome then 3 else 2) ≤ 1023)
+    (hinit : ∀ s, m.init = some s → (encStateInit s).isSome)
+    (hbody : m.body.1.length ≤ 1023 ∧ m.body.2.length ≤ 4) :
+    ∃ i b c, encMessage ops m i b = some c ∧ Message.serialize ops m = some c := by
+  have hir : ir.length ≤ 1 := by
+    have := nrefs_encInfo m.info; rw [(enc_some_sizes hinfo).2] at this; exact this
+  have hib : ib.length ≤ 1023 := by split at hI <;> omega
+  have hrun := ((appends_infoB m.info).run hinfo).1 ⟨hib, by show ir.length ≤ 4; omega⟩
+  dsimp only at hrun
+  obtain ⟨icell, hicell⟩ := Option.isSome_iff_exists.mp (ht ib ir hib (by omega))
+  have hview := hl _ _ _ hicell
+  have hcell : cellOf ops (infoB m.info) = some icell := by simp [cellOf, runB, hrun, hicell]
+  have h0 := ((appends_storeCell ib ir).run rfl).1 ⟨hib, by show ir.length ≤ 4; omega⟩
+  dsimp only at h0
+  have hwf0 : WFB (⟨ib, ir⟩ : Builder R) := ⟨hib, by simp; omega⟩
+  obtain ⟨i, ch1, he1, hf1, hi1, hroom⟩ := initB_ok ops hl ht m.init hinit m.body ⟨ib, ir⟩ hwf0 hI hir
+  obtain ⟨b, ch2, he2, hf2, hb2⟩ := bodyB_ok ops ht m.body hbody _ (app_wfb hf1) hroom
+  have hfin : (app (app (⟨ib, ir⟩ : Builder R) ch1) ch2).bits.length ≤ 1023 ∧ (app (app (⟨ib, ir⟩ : Builder R) ch1) ch2).refs.length ≤ 4 :=
+    app_wfb hf2
+  obtain ⟨c, hc⟩ := Option.isSome_iff_exists.mp (ht _ _ hfin.1 hfin.2)
+  refine ⟨i, b, c, ?_, ?_⟩
+  · simp only [encMessage, encMessageChunk, hinfo, he1, he2, Enc.cat, Option.bind_some, mkChunk]
+    simp only [app, List.append_assoc] at hfin hc
+    have hfin' := hfin
+    simp only [List.length_append] at hfin'
+    simp [hfin', hc]
+  · simp only [Message.serialize, hcell, hview, h0, hi1, hb2]
+    simpa using hc
+
 end TonVerif.Proofs.Message
